@@ -126,6 +126,10 @@ def enc(v):
         return {"$date": v.isoformat()}
     if v is Ellipsis:
         return {"$ellipsis": 1}
+    if t is set:
+        return {"$set": sorted((enc(x) for x in v), key=repr)}
+    if t is frozenset:
+        return {"$frozenset": sorted((enc(x) for x in v), key=repr)}
     return {"$repr": _safe_repr(v)}
 
 
@@ -178,6 +182,10 @@ def dec(j):
             return date.fromisoformat(x)
         if k == "$ellipsis":
             return Ellipsis
+        if k == "$set":
+            return set(dec(y) for y in x)
+        if k == "$frozenset":
+            return frozenset(dec(y) for y in x)
         raise ValueError("cannot decode %r" % (j,))
     raise ValueError("cannot decode %r" % (j,))
 
